@@ -1,4 +1,5 @@
 import Pms.Props.C05
+import Pms.Props.C05Mod
 
 #print axioms Pms.Neigh.C05_nnearest
 #print axioms Pms.Neigh.C05_nnearest_unique
@@ -18,3 +19,4 @@ import Pms.Props.C05
 #print axioms Pms.Neigh.C05_cutoff_via_file
 #print axioms Pms.Neigh.C05_weights_branch
 #print axioms Pms.Neigh.C05_int_roundtrip
+#print axioms Pms.ModShape.C05_module_shape
